@@ -194,7 +194,9 @@ func uniquePath(spec *Spec, id int) bool {
 	return true
 }
 
-// reachesRoot tells whether node id contributes to the root.
+// ReachesRoot tells whether node id contributes to the root.
+func ReachesRoot(spec *Spec, id int) bool { return reachesRoot(spec, id) }
+
 func reachesRoot(spec *Spec, id int) bool {
 	need := map[int]bool{spec.Root(): true}
 	for i := spec.Root(); i >= 0; i-- {
